@@ -28,6 +28,10 @@ func (n *RaftNode) CreateBackup() error {
 	n.Lock()
 	defer n.Unlock()
 
+	// the recorded version must be the version of the store being captured
+	n.applyMu.RLock()
+	defer n.applyMu.RUnlock()
+
 	v := n.balloon.Version()
 	metadata := fmt.Sprintf("%d", v-1)
 	err := n.db.Backup(metadata)
